@@ -115,6 +115,7 @@ def check_F(res, key, F, Fref, F0, trint, N, strain, tag):
     if not derr <= 3 * bound:
         V("det_F", {"det": float(np.linalg.det(F)), "expected": float(dref), "bound": 3 * bound})
     res["notes"]["max_rel_err_F"] = max(res["notes"].get("max_rel_err_F", 0.0), err)
+    res["notes"]["max_ratio_err_to_bound"] = max(res["notes"].get("max_ratio_err_to_bound", 0.0), err / bound)
 
 
 def trace_integral(fl, t0, t1):
